@@ -232,6 +232,8 @@ func (m *Machine) exec(t *rapid.T, op string) bool {
 		return m.opRestore(t)
 	case "checkstate_adv":
 		return m.opCheckStateAdv(t)
+	case "overlap_quotes":
+		return m.opOverlapQuotes(t)
 	case "mintquote_boundary":
 		return m.opMintQuoteBoundary(t)
 	case "meltquote_boundary":
@@ -466,7 +468,23 @@ func (m *Machine) opMint(t *rapid.T) bool {
 
 // honestOutputs splits total into outputs on the active keyset.
 func (m *Machine) honestOutputs(total uint64) []world.Out {
-	return m.W.MakeOutputs(world.Split(total), m.W.ActiveID)
+	outs := m.W.MakeOutputs(world.Split(total), m.W.ActiveID)
+	// hex is case-insensitive: one request in eight spells (some of) its B_ in upper case. Whatever spelling the
+	// client used is the one it will ask restore for.
+	switch rapid.IntRange(0, 7).Draw(m.T, "b_hex_case") {
+	case 0:
+		for i := range outs {
+			outs[i].Msg.B_ = strings.ToUpper(outs[i].Msg.B_)
+		}
+		m.Count["outputs_upper_case_hex"]++
+	case 1:
+		if len(outs) > 0 {
+			b := outs[len(outs)-1].Msg.B_
+			outs[len(outs)-1].Msg.B_ = b[:20] + strings.ToUpper(b[20:])
+			m.Count["outputs_upper_case_hex"]++
+		}
+	}
+	return outs
 }
 
 func (m *Machine) opSwap(t *rapid.T, adversarial bool) bool {
@@ -1145,6 +1163,50 @@ func (m *Machine) opMintQuoteBoundary(t *rapid.T) bool {
 			m.honestFail("mint", e)
 		}
 	}
+	return true
+}
+
+// opOverlapQuotes: two quotes requested while the balance still has room for each of them, but not for both, are
+// both paid and minted - the balance ends above the maximum. From then on every mint quote must be refused (and
+// the info endpoint shows minting disabled) until the balance has come down again.
+func (m *Machine) opOverlapQuotes(t *rapid.T) bool {
+	w := m.W
+	lim := w.Cfg.Limits
+	if lim.MaxBalance == 0 || lim.MaxBalance <= m.balance() {
+		return false
+	}
+	room := lim.MaxBalance - m.balance()
+	d := room
+	if lim.MintingSettings.MaxAmount > 0 {
+		d = min(d, lim.MintingSettings.MaxAmount)
+	}
+	if d > 1<<16 || len(w.M.Order) > m.Opt.MaxProofs {
+		return false
+	}
+	a1 := rapid.Uint64Range(1, d).Draw(t, "overlap_first")
+	if room-a1+1 > d {
+		return false
+	}
+	a2 := rapid.Uint64Range(room-a1+1, d).Draw(t, "overlap_second")
+	q1, err1 := w.RequestMintQuote(a1, nil)
+	q2, err2 := w.RequestMintQuote(a2, nil)
+	m.logf("overlapping mint quotes %d and %d (balance %d, max balance %d): err=%v / %v", a1, a2, m.balance(), lim.MaxBalance, err1, err2)
+	if err1 != nil || err2 != nil {
+		return true
+	}
+	for _, q := range []*world.MMintQuote{q1, q2} {
+		w.PayInvoice(q)
+		if _, e := w.MintTokens(q, w.MakeOutputs(world.Split(q.Amount), w.ActiveID), ""); e != nil {
+			m.honestFail("mint", e)
+			return true
+		}
+	}
+	if m.balance() > lim.MaxBalance {
+		m.Count["balance_above_maximum"]++
+	}
+	probe := rapid.Uint64Range(1, 5).Draw(t, "overlap_probe")
+	_, err := w.RequestMintQuote(probe, nil)
+	m.logf("  balance now %d; mint quote for %d: err=%v", m.balance(), probe, err)
 	return true
 }
 
